@@ -188,6 +188,19 @@ def b_TP(ctx):
     return [("c", TransformationCollection, ts), ("c", PointCollection, pts(ctx, ["p0", "p1"]))]
 
 
+def b_Tp(ctx):
+    """collection of transformations x single point (and, b_tP, single transformation x collection of points)"""
+    a = b_TP(ctx)
+    return [a[0], ("s", pts(ctx, ["p"])[0])]
+
+
+def b_tP(ctx):
+    from geometer import Transformation, PointCollection
+    t = ctx.reals("t", 3, 3)
+    ctx.assume(ctx.neg(ctx.is_zero(R.det(R.mat(t)))))
+    return [("s", Transformation(t)), ("c", PointCollection, pts(ctx, ["p0", "p1"]))]
+
+
 def b_TL(ctx):
     from geometer import LineCollection
     a = b_TP(ctx)
@@ -370,6 +383,8 @@ def ops():
         ("is_perpendicular", b_LM, lambda L, M: is_perpendicular(L, M), Q),
         ("transform_points", b_TP, lambda T_, P: T_ * P, Q),
         ("transform_lines", b_TL, lambda T_, L: T_ * L, Q),
+        ("transform_single_point_by_collection", b_Tp, lambda T_, p: T_ * p, Q),
+        ("transform_points_by_single", b_tP, lambda t, P: t * P, Q),
         ("transform_inverse", b_TP, lambda T_, P: T_.inverse(), Q),
         ("quadric_contains", b_QP, lambda Q_, P: Q_.contains(P), Q),
         ("quadric_tangent", b_QP, lambda Q_, P: Q_.tangent(P), Q),
